@@ -84,8 +84,9 @@ func vc11pPool() []string {
 }
 
 // vc11pGenList draws the listed subset of the pool and a list text for it
-// (with comments, blank lines, duplicates and CRLF).
-func vc11pGenList(t *rapid.T, label string) (text string, listed map[string]bool) {
+// (with comments, blank lines, duplicates, CRLF and sometimes a long comment
+// line first); long is the length of that line or 0.
+func vc11pGenList(t *rapid.T, label string) (text string, listed map[string]bool, long int) {
 	listed = map[string]bool{}
 	var lines []string
 	for _, name := range vc11pPool() {
@@ -107,9 +108,31 @@ func vc11pGenList(t *rapid.T, label string) (text string, listed map[string]bool
 		}
 	}
 
+	// Sometimes a long comment line in front of the names (lengths around 255
+	// and below the scanner's 64 KiB token limit, terminator included).
+	long = 0
+	if rapid.IntRange(0, 3).Draw(t, label+".long") == 0 {
+		long = rapid.SampledFrom([]int{200, 254, 255, 255, 256, 256, 1000, 4096, 65534}).Draw(t, label+".longLen")
+		lines = append([]string{"#" + strings.Repeat("-", long-1)}, lines...)
+	}
+
 	eol := rapid.SampledFrom([]string{"\n", "\r\n"}).Draw(t, label+".eol")
 
-	return strings.Join(lines, eol) + eol, listed
+	return strings.Join(lines, eol) + eol, listed, long
+}
+
+// vc11pShow quotes a list text, abbreviating a long comment line.
+func vc11pShow(text string) string {
+	if i := strings.Index(text, strings.Repeat("-", 40)); i >= 0 {
+		j := i
+		for j < len(text) && text[j] == '-' {
+			j++
+		}
+
+		text = fmt.Sprintf("%s-{%d}%s", text[:i], j-i, text[j:])
+	}
+
+	return fmt.Sprintf("%q", text)
 }
 
 // vc11pLabel is one label of a generated prefix query.
@@ -207,7 +230,7 @@ func TestVerifC11Preservice(t *testing.T) {
 		"txt-answer-nonempty", "txt-answer-empty", "txt-answer-two-names-one-prefix", "txt-legacy8", "txt-refused",
 		"txt-outside-suffix-forwarded", "non-txt-forwarded", "txt-answer-after-reset",
 		"txt-repeated-prefix-with-zero-hash-listed", "txt-no-match-after-disposed-match",
-		"txt-no-match-after-disposed-other-txt")
+		"txt-no-match-after-disposed-other-txt", "list-has-line-of-255-or-more")
 	st.Finish(t)
 
 	// One production cloner and constructor for the whole stack, as in cmd;
@@ -239,11 +262,21 @@ func TestVerifC11Preservice(t *testing.T) {
 		resets := 0
 		for i := range strgs {
 			var text string
-			text, listed[i] = vc11pGenList(t, fmt.Sprintf("list%d", i))
-			history = append(history, fmt.Sprintf("storage %s list=%q", suffixes[i], text))
+			var long int
+			text, listed[i], long = vc11pGenList(t, fmt.Sprintf("list%d", i))
+			history = append(history, fmt.Sprintf("storage %s list=%s", suffixes[i], vc11pShow(text)))
 
 			var err error
 			strgs[i], err = hashprefix.NewStorage(text)
+			if err != nil && long >= 254 {
+				// A loud refusal of a list with an overlong line: no list.
+				history = append(history, fmt.Sprintf("list refused: %v", err))
+				listed[i] = map[string]bool{}
+				strgs[i], err = hashprefix.NewStorage("")
+			} else if long >= 255 && len(listed[i]) > 0 {
+				st.Class("list-has-line-of-255-or-more")
+			}
+
 			if err != nil {
 				t.Fatalf("NewStorage: %v", err)
 			}
@@ -289,10 +322,21 @@ func TestVerifC11Preservice(t *testing.T) {
 			if op > 0 && rapid.IntRange(0, 7).Draw(t, "op") == 0 {
 				i := rapid.IntRange(0, 1).Draw(t, "resetWhich")
 				var text string
-				text, listed[i] = vc11pGenList(t, fmt.Sprintf("relist%d", i))
-				history = append(history, fmt.Sprintf("reset %s list=%q", suffixes[i], text))
-				if _, err := strgs[i].Reset(text); err != nil {
+				var long int
+				var next map[string]bool
+				text, next, long = vc11pGenList(t, fmt.Sprintf("relist%d", i))
+				history = append(history, fmt.Sprintf("reset %s list=%s", suffixes[i], vc11pShow(text)))
+				switch _, err := strgs[i].Reset(text); {
+				case err != nil && long >= 254:
+					// A loud refusal leaves the previous list in effect.
+					history = append(history, fmt.Sprintf("reset refused: %v", err))
+				case err != nil:
 					t.Fatalf("Reset: %v", err)
+				default:
+					listed[i] = next
+					if long >= 255 && len(next) > 0 {
+						st.Class("list-has-line-of-255-or-more")
+					}
 				}
 
 				resets++
